@@ -21,7 +21,7 @@ func init() {
 			"R04-events — the event name that reaches metaOp1/metaOp2/objectRational* from each operation equals the Lua 5.1 manual §2.8 table (arithmetic per opcode, __unm, __len, __concat, __eq, __lt, __le with the 'not (b < a)' fallback using swapped operands and negation, __index, __newindex, __call, __tostring, __metatable), operands are passed in source order, the handler is pushed before its operands and exactly one result is requested; binary lookups try the left operand first; comparison handlers are called only when both operands supply the identical handler, and == consults __eq on the table/userdata arm only. " +
 			"R04-siblings — the generic and the string-keyed index/assignment helpers (getField/getFieldString, setField/setFieldString) perform the same sequence of raw lookups, stores, handler calls and raises. R04-callself — wherever a __call handler is entered, the value inserted as its first argument is the called object itself (the operand metaCall was applied to), at the call instruction, the tail call and the host-side call path alike. NOT decided: raw-first lookup order, __newindex only for absent keys, chain depth — visible only as 'this is how it is written'.",
 		Trusted: []string{"Lua 5.1 manual §2.8 event table written out in the checker"},
-		Rules:   []func(*Ctx){ruleLessThanSameType, ruleInsertTopWithinCheckedCapacity, rulePresentMeansNotNil, ruleRaw, ruleEvents, ruleSiblings, ruleCallSelf, ruleCoerceBeforeHandler, ruleDebugMetatableAndHuge, ruleUnaryHandlerArgs, ruleIndexHandlerGetsCurrentLink},
+		Rules:   []func(*Ctx){ruleOrderNeverByIdentity, ruleLessThanSameType, ruleInsertTopWithinCheckedCapacity, rulePresentMeansNotNil, ruleRaw, ruleEvents, ruleSiblings, ruleCallSelf, ruleCoerceBeforeHandler, ruleDebugMetatableAndHuge, ruleUnaryHandlerArgs, ruleIndexHandlerGetsCurrentLink},
 	})
 }
 
